@@ -62,18 +62,17 @@ func (s *c05Store) setEpoch(set map[string]bool) {
 
 func (s *c05Store) Store(cat *lungo.Catalog) error {
 	s.stores++
-	rt, err := world.RoundTrip(cat)
-	if err != nil {
-		return err
-	}
-	cand := c05Dump(rt)
+	// the reference for "the state being committed" is the catalog the engine hands over, dumped directly: going
+	// through the store's own decoder here would make the oracle share its mistakes (a namespace key split at the
+	// wrong dot loads wrongly on both sides)
+	cand := c05Dump(cat)
 	s.cands = append(s.cands, cand)
 	inflight := map[string]bool{cand: true}
 	for k := range s.cur {
 		inflight[k] = true
 	}
 	s.setEpoch(inflight)
-	err = s.inner.Store(cat)
+	err := s.inner.Store(cat)
 	if err == nil {
 		s.acks++
 		s.setEpoch(map[string]bool{cand: true})
@@ -284,8 +283,7 @@ func c05Run(img memfs.Image, calls []string, failAt int, failMode string) *c05Tr
 			tr.noops++ // e.g. an update of a document whose insert was rejected by the injected fault
 		case err == nil && st.acks > acks:
 			// the acknowledged state is what clients see
-			rt, rerr := world.RoundTrip(eng.Catalog())
-			if rerr != nil || c05Dump(rt) != st.cands[len(st.cands)-1] {
+			if c05Dump(eng.Catalog()) != st.cands[len(st.cands)-1] {
 				tr.problems = append(tr.problems, fmt.Sprintf("visible-differs-from-persisted: after %s the visible catalog is not the one handed to the store", cn))
 			}
 		}
